@@ -385,10 +385,18 @@ def run(ctx, R, tier):
     from ..report import Rules
     from . import c03
     R3 = Rules("C03")
-    c03.run(ctx, R3, tier)
+    try:
+        c03.run(ctx, R3, tier)
+    except AnalysisError as _shared_x:
+        # the other property's own anchors are gone on this tree: its check reports that; what it produced before is still shared
+        R.note("obligations shared from C03 are incomplete on this tree: %s" % _shared_x)
     from . import c17
     R17 = Rules("C17")
-    c17.run(ctx, R17, tier)
+    try:
+        c17.run(ctx, R17, tier)
+    except AnalysisError as _shared_x:
+        # the other property's own anchors are gone on this tree: its check reports that; what it produced before is still shared
+        R.note("obligations shared from C17 are incomplete on this tree: %s" % _shared_x)
     for o in R17.obs:
         if o.key == "C17-R1|receive_data|short-read-decided-by-length":
             R.add("C08-R5", "receive_data|short-read-decided-by-length", o.desc + " (a CONNECT with an empty payload must be answered with a connect-failure, not dropped as a closed connection)",
